@@ -372,6 +372,142 @@ def const_value(e):
     return None
 
 
+# ---- exact evaluation of integer expressions (witness search for unrecognised shapes) -----------------------
+
+class EvalTrap(Exception):
+    def __init__(self, kind):
+        Exception.__init__(self, kind)
+        self.kind = kind
+
+
+class EvalUB(Exception):
+    """the expression has undefined behaviour for these operands"""
+
+
+class EvalUnknown(Exception):
+    """construct outside the evaluator (floating point, memory, unknown call)"""
+
+
+_BITCOUNT = {'__builtin_clz': ('clz', 32), '__builtin_clzl': ('clz', 64), '__builtin_clzll': ('clz', 64),
+             '__builtin_ctz': ('ctz', 32), '__builtin_ctzl': ('ctz', 64), '__builtin_ctzll': ('ctz', 64),
+             '__builtin_popcount': ('pop', 32), '__builtin_popcountl': ('pop', 64), '__builtin_popcountll': ('pop', 64)}
+
+
+def _wrap(v, ti):
+    v &= (1 << ti[1]) - 1
+    if ti[2] and v >> (ti[1] - 1):
+        v -= 1 << ti[1]
+    return v
+
+
+def ieval(e, env):
+    """value of the typed integer expression e (C semantics of the analysed target) with slot variables bound by env
+    {name: unsigned bit pattern}.  Raises EvalTrap when trap(kind) is called, EvalUB on undefined behaviour."""
+    ti = tinfo(e.ty)
+    if e.k == 'var':
+        if e.x not in env:
+            raise EvalUnknown('variable %s' % e.x)
+        if ti[0] != 'int':
+            raise EvalUnknown('non-integer variable %s' % e.x)
+        return _wrap(env[e.x], ti)
+    if e.k == 'const':
+        v = e.x
+        if isinstance(v, tuple) and v[0] == 'enum':
+            v = v[2]
+        if isinstance(v, bool) or not isinstance(v, int):
+            raise EvalUnknown('constant %r' % (e.x,))
+        return _wrap(v, ti) if ti[0] == 'int' else v
+    if e.k == 'cast':
+        if ti[0] == 'other' and e.ty.strip() == 'void':
+            ieval(e.a[0], env)
+            return 0
+        if ti[0] != 'int':
+            raise EvalUnknown('cast to %s' % e.ty)
+        if tinfo(e.a[0].ty)[0] not in ('int',) and e.a[0].k != 'const':
+            raise EvalUnknown('cast from %s' % e.a[0].ty)
+        return _wrap(ieval(e.a[0], env), ti)
+    if e.k == 'comma':
+        ieval(e.a[0], env)
+        return ieval(e.a[1], env)
+    if e.k == 'cond':
+        c = ieval(e.a[0], env)
+        return ieval(e.a[1] if c != 0 else e.a[2], env)
+    if e.k == 'assign':
+        return ieval(e.a[1], env)
+    if e.k == 'un':
+        if e.x == '!':
+            return 0 if ieval(e.a[0], env) != 0 else 1
+        v = ieval(e.a[0], env)
+        if e.x == '~':
+            return _wrap(~v, ti)
+        if e.x == '-':
+            r = -v
+            if ti[0] == 'int' and ti[2] and r != _wrap(r, ti):
+                raise EvalUB('signed negation overflows')
+            return _wrap(r, ti)
+        if e.x == '+':
+            return v
+        raise EvalUnknown('unary %s' % e.x)
+    if e.k == 'bin':
+        op = e.x
+        if op == '&&':
+            return 1 if ieval(e.a[0], env) != 0 and ieval(e.a[1], env) != 0 else 0
+        if op == '||':
+            return 1 if ieval(e.a[0], env) != 0 or ieval(e.a[1], env) != 0 else 0
+        l, r = ieval(e.a[0], env), ieval(e.a[1], env)
+        if op in ('==', '!=', '<', '>', '<=', '>='):
+            return int({'==': l == r, '!=': l != r, '<': l < r, '>': l > r, '<=': l <= r, '>=': l >= r}[op])
+        if ti[0] != 'int':
+            raise EvalUnknown('arithmetic in %s' % e.ty)
+        if op in ('<<', '>>'):
+            lt = tinfo(e.a[0].ty)
+            if r < 0 or r >= lt[1]:
+                raise EvalUB('shift count %d is not below the width %d of the shifted operand' % (r, lt[1]))
+            if op == '<<':
+                if lt[2] and l < 0:
+                    raise EvalUB('left shift of a negative value')
+                v = l << r
+                if lt[2] and v != _wrap(v, lt):
+                    raise EvalUB('signed left shift overflows')
+                return _wrap(v, ti)
+            return _wrap(l >> r, ti)        # arithmetic for negative signed values (all analysed compilers)
+        if op in ('/', '%'):
+            if r == 0:
+                raise EvalUB('division by zero is evaluated')
+            q = abs(l) // abs(r)
+            if (l < 0) != (r < 0):
+                q = -q
+            if ti[2] and q != _wrap(q, ti):
+                raise EvalUB('signed division overflows (MIN / -1)')
+            return _wrap(q if op == '/' else l - q * r, ti)
+        if op in ('+', '-', '*'):
+            v = {'+': l + r, '-': l - r, '*': l * r}[op]
+            if ti[2] and v != _wrap(v, ti):
+                raise EvalUB('signed %s overflows' % op)
+            return _wrap(v, ti)
+        if op in ('&', '|', '^'):
+            return _wrap({'&': l & r, '|': l | r, '^': l ^ r}[op], ti)
+        raise EvalUnknown('operator %s' % op)
+    if e.k == 'call':
+        if e.x == 'trap':
+            arg = e.a[0]
+            while arg.k == 'cast':
+                arg = arg.a[0]
+            raise EvalTrap(arg.x[1] if arg.k == 'const' and isinstance(arg.x, tuple) and arg.x[0] == 'enum' else '?')
+        if e.x in _BITCOUNT:
+            kind, w = _BITCOUNT[e.x]
+            v = ieval(e.a[0], env) & ((1 << w) - 1)
+            if kind == 'pop':
+                return bin(v).count('1')
+            if v == 0:
+                raise EvalUB('%s(0) is undefined' % e.x)
+            if kind == 'clz':
+                return w - v.bit_length()
+            return (v & -v).bit_length() - 1
+        raise EvalUnknown('call of %s' % e.x)
+    raise EvalUnknown('node %s' % e.k)
+
+
 # ---- conditional chains ---------------------------------------------------------------------------
 
 def cond_chain(e):
